@@ -107,6 +107,8 @@ def run(tier, seed):
                  "sets the sticky end-of-archive flag. Decides the wiring of the checks for all inputs at once; does not "
                  "decide the sufficiency of the numeric constants of the length rules.")
     with Context(tier) as ctx:
+        from .. import selfcheck
+        selfcheck.run(ctx, rep, ['facts'])
         mod = ctx.plain()
         rep.analysed = {"view": "plain", "functions": len(mod.defined()), "units": len(ctx.views.units)}
         cg = CallGraph(mod)
